@@ -140,6 +140,20 @@ def replay(w, seed):
         a.destroy()
 
 
+def all_witnesses(path=WITNESS):
+    f = load(path)
+    out = []
+    for k in sorted(f):
+        if k != "_done":
+            out += f[k]
+    return out
+
+
+def replay_index(i, seed):
+    """module-level entry for the scenario pool: the i-th stored witness"""
+    return replay(all_witnesses()[i], seed)
+
+
 def load(path=WITNESS):
     return json.load(open(path)) if os.path.exists(path) else {}
 
